@@ -108,6 +108,8 @@ impl IncanLanguageServer {
         // Store AST for hover/goto
         {
             let mut docs = self.documents.write().await;
+            #[cfg(incan_verif)]
+            crate::lsp::verif_hooks::log(format!("store {uri} {version}"));
             docs.insert(
                 uri.clone(),
                 DocumentState {
@@ -492,6 +494,8 @@ impl LanguageServer for IncanLanguageServer {
         let uri = params.text_document.uri;
         let source = params.text_document.text;
         let version = params.text_document.version;
+        #[cfg(incan_verif)]
+        crate::lsp::verif_hooks::log(format!("recv open {uri} {version}"));
 
         self.analyze_document(&uri, &source, version).await;
     }
@@ -499,6 +503,8 @@ impl LanguageServer for IncanLanguageServer {
     async fn did_change(&self, params: DidChangeTextDocumentParams) {
         let uri = params.text_document.uri;
         let version = params.text_document.version;
+        #[cfg(incan_verif)]
+        crate::lsp::verif_hooks::log(format!("recv change {uri} {version}"));
 
         // We use FULL sync, so there's only one change with the full content
         if let Some(change) = params.content_changes.into_iter().next() {
@@ -508,9 +514,13 @@ impl LanguageServer for IncanLanguageServer {
 
     async fn did_close(&self, params: DidCloseTextDocumentParams) {
         let uri = params.text_document.uri;
+        #[cfg(incan_verif)]
+        crate::lsp::verif_hooks::log(format!("recv close {uri}"));
 
         // Remove document from cache
         let mut docs = self.documents.write().await;
+        #[cfg(incan_verif)]
+        crate::lsp::verif_hooks::log(format!("remove {uri}"));
         docs.remove(&uri);
 
         // Clear diagnostics
